@@ -22,6 +22,8 @@ void RestorePointContainer::read(AbstractFile & is) {
 
 void RestorePointContainer::write(AbstractFile & os) {
     /* pre processing */
+    if (data.size() > 0xffff)
+        data.resize(0xffff); // dataLength cannot express more
     dataLength = static_cast<uint16_t>(data.size());
 
     ObjectHeader::write(os);
